@@ -138,6 +138,123 @@ CLAIMED = {
         note="Trusted: Coq kernel, extraction, harness (counting Read+Write+Seek medium).",
         technique="Coq proof (case analysis on the package state machine) + write-counting correspondence",
         design="4 C16"),
+    "C02": dict(
+        text="PARTIAL.  Reader-side theorems quantified over every well-formed value of the format (not over the library's own "
+             "output): the pool reader inverts any well-formed UTF-8 pool - two- and three-byte references, unused entries, "
+             "duplicate strings, over-counted references, strings above 64 KiB (long-string escape); the table reader inverts any "
+             "column-major stream of well-typed rows in any row order with either reference width and never yields an ill-typed "
+             "cell; type words incl. integer field sizes 1/2/4; the catalog reader rebuilds any accepted column list; the "
+             "property-set reader any well-formed set; all readers total.  NOT proved: the composition for a whole foreign file "
+             "(catalog rows in any order, _Validation absent, property-set layouts other than the writer's, non-UTF-8 pages).  "
+             "That composition is decided by the correspondence: databases produced by an independent encoder written from the "
+             "format description (tools/msienc.py: every feature above, 6 code pages, 3 property-set layouts) are wrapped with "
+             "the cfb crate, opened, compared in full with the encoder's abstract database, modified through the API and "
+             "decoded again by the independent decoder (tools/msidec.py).",
+        note="Trusted: Coq kernel, translator, extraction, harness, the independent encoder/decoder/property-set parser.",
+        technique="Coq proof (codec round trips by induction, lia) + correspondence against an independent encoder",
+        design="4 C02"),
+    "C09": dict(
+        text="Theorems over the stream-level model, for EVERY container (any streams holding any bytes): Package::open, the pool, "
+             "table and property-set readers, SELECT/JOIN for any query tree, stream calls for any name, DELETE on any "
+             "container/pool/table map, and INSERT/UPDATE below the pool capacity never return Panic, in both build profiles.  "
+             "The unwrap() calls in open, the panics of decref and the debug assertion of incref are flags regenerated from the "
+             "source (all off on this tree after fixes c2fee45, b3803e7) and pinned by a theorem.  PARTIAL: cfb's parser of the "
+             "sector-level file, hangs and memory exhaustion are outside the model; they are exercised on the implementation "
+             "only: ~730 structure-aware corruptions of independently encoded files (each followed by every read and mutating "
+             "operation + flush, compared with the model) and byte-level damage of saved files under time and address-space "
+             "limits.  The pool-capacity panic is known finding pool_full_panic (C20).",
+        note="Trusted: Coq kernel, translator (failure flags), extraction, harness (isolated driver processes, catch_unwind).",
+        technique="Coq proof (totality by induction over readers and query trees) + translator flags + corruption correspondence",
+        design="4 C09"),
+    "C15": dict(
+        text="Theorems over Io.v: for EVERY fault schedule (any function from write-call index to fail/succeed) a write path that "
+             "ends with a propagated flush and reports success has landed every byte in order; a whole save (any sequence of "
+             "table/pool/data/summary writes, each propagated) that reports success leaves the medium exactly as the fault-free "
+             "run; failed paths never corrupt what had landed; without the flush the property is refuted by a witness schedule.  "
+             "Whether each of the four real write functions flushes and whether finish/flush/exec propagate is regenerated from "
+             "the source on every run (GenIo.v) and pinned by C15_discipline.  PARTIAL: cfb's sector/FAT/directory writes are "
+             "below the model; the tie for them is the fault enumeration on the real medium: for 4 scripts x 2 close modes every "
+             "sampled (thorough: every) write index fails once / from then on; all-Ok runs must reopen to the reference state; no "
+             "panic.",
+        note="Trusted: Coq kernel, translator (regex over the write functions), harness (fault-injecting Read+Write+Seek medium).",
+        technique="Coq proof (induction over chunk lists for arbitrary schedules) + translator-pinned discipline + fault enumeration",
+        design="4 C15"),
+    "C20": dict(
+        text="Theorems: the limits are generated constants pinned by a theorem (32 columns, 65,536 rows in reader AND insert, 31 "
+             "packed name units, reference widths); >32 columns and every other argument error of create_table return the package "
+             "itself; a successful INSERT never leaves more rows than the reader accepts and one more row is never accepted, so "
+             "(with the save/reopen theorems) the library reads what it wrote; accepted names fit the container; valid rows with "
+             "new keys within the row and pool limits are accepted; below 65,535 pool entries interning never panics.  The one "
+             "limit that is a panic (65,536th distinct string under two-byte references) is a known finding with a proved witness.  "
+             "Correspondence: boundary scripts L-1/L/L+1 for columns, rows (batch, incremental, across reopen, after deletions), "
+             "strings, table and column name lengths.",
+        note="Trusted: Coq kernel, translator, extraction, harness; bulk boundary cases (>= 30,000 rows) are judged on the "
+             "implementation only (the extracted model's list operations are quadratic).",
+        technique="Coq proof (bounds through the insert path, finite witness by vm_compute) + boundary correspondence",
+        design="4 C20"),
+    "C01": dict(
+        text="Theorem C01_reachable_roundtrip: for EVERY package reachable from Package::create by any sequence of admissible API "
+             "calls (insert/update/delete on user tables, create_table, drop_table, stream writes/removals, signature removal, "
+             "summary changes, code page, flush, reopen - whatever each call answered) saving and reopening succeeds and shows the "
+             "same package type, code page, summary, table map, rows of every table and streams; the flushed state already shows "
+             "them; the reopened package is reachable again and saving it writes nothing.  Proved by an inductive package "
+             "invariant (exact string accounting, catalog = tables, sorted valid rows, medium = memory unless flagged) preserved "
+             "by every operation, plus codec round trips (rows, pool incl. long-string escape, property set).  Admissible excludes "
+             "values no Rust caller can build, non-UTF-8 database code pages (representability) and DML aimed at a catalog table "
+             "(known finding catalog_dml, with a proved witness).  Correspondence: random histories with a close/reopen after every "
+             "operation in each of the three close modes (flush + bytes at the moment flush returned, into_inner, drop), raw "
+             "streams compared, second save byte-identical, 26 code pages with strings from their repertoire.",
+        note="Trusted: Coq kernel, translator, extraction, harness; cfb modelled as a name->bytes map (sector level outside); "
+             "flush/into_inner/drop are one function in the model, tied to the three real modes by the correspondence.",
+        technique="Coq proof (inductive invariant over operation histories + codec round trips) + correspondence",
+        design="4 C01"),
+    "C03": dict(
+        text="Theorems on every state satisfying the package invariant (hence every reachable state): after INSERT the table, read "
+             "back as values, is a Permutation of old ++ normalised new rows and strictly key-sorted; after DELETE it is the old "
+             "list filtered by the negated condition; after UPDATE it is map upd_row of the old list (exactly the matching rows, "
+             "exactly the named columns), same order or key-sorted permutation when a key is assigned; every other table, the "
+             "catalog, streams and summary untouched; SELECT = filter then project; row shape.  The crux proved: conditions and "
+             "kept rows are decoded under a pool from which earlier rows' strings were already released - sound only by exact "
+             "accounting.  Correspondence: all operation sequences to depth 3/4 over an 11-operation alphabet on two tables incl. "
+             "reopen, random histories with random WHERE trees, Rows::len().",
+        note="Trusted: Coq kernel, extraction, harness, the Python relational shadow used as oracle.",
+        technique="Coq proof (refinement to a list-level relational model with loop invariants over the threaded pool) + correspondence",
+        design="4 C03"),
+    "C04": dict(
+        text="Theorems on every state satisfying the package invariant: a rejected INSERT/UPDATE/DELETE leaves container and pool "
+             "identical (only the finisher is armed) and does not change what a save writes; create_table answering Err leaves "
+             "container and pool identical - no half-created table (once the argument checks and catalog pre-validations pass, none "
+             "of the three catalog inserts can fail: row limit, duplicate keys and write errors are excluded from the invariant); "
+             "drop_table answering Err returns the package itself; rejected stream calls return the package itself; every argument "
+             "check precedes the first change.  Correspondence: invalid-call generator (unknown/invalid/reserved names, arity, "
+             "invalid values, duplicate keys in and across batches, late-failing column definitions) with full snapshots before/"
+             "after and after save+reopen, pool accounting via the independent decoder.",
+        note="Trusted: Coq kernel, extraction, harness.  In the model a failed exec returns no state (op_res keeps the old one): "
+             "that modelling step is what the correspondence (snapshot + raw streams after every rejected call) ties to the code.",
+        technique="Coq proof (case analysis in program order + invariant-based impossibility of late failures) + correspondence",
+        design="4 C04"),
+    "C05": dict(
+        text="Theorem C05_reachable: in every reachable package every table reads back strictly ascending by primary key (hence "
+             "unique keys) with every cell valid for its column (an accepted empty string is stored as null); the reopened "
+             "package is reachable, so it holds after save/reopen; per-operation theorems incl. key-assigning updates (duplicates "
+             "rejected, rows re-sorted).  Correspondence: histories stressing keys (constant key assignment, order-changing "
+             "updates, descending/duplicate batches, null vs empty-string key parts enumerated systematically); the invariant is "
+             "evaluated on the implementation's own rows after every step and reopen.",
+        note="Trusted: Coq kernel, extraction, harness.",
+        technique="Coq proof (StronglySorted / Forall2 invariants through the BTreeMap model) + correspondence",
+        design="4 C05"),
+    "C08": dict(
+        text="Theorem C08_reachable_accounting: in every reachable package the pool is well-formed (16-bit counts, count zero iff text "
+             "empty), the reference count of every entry equals the number of cells of ALL tables incl. the catalogs that refer to "
+             "it, and the catalog tables hold exactly the rows describing the tables; the saved state writes write_pool/write_data "
+             "of that pool; table streams are rows x row-width, column-major, offset-binary, zero = null; drop_table removes the "
+             "stream and the catalog rows and leaves accounting exact (nothing leaks); no table stream exists without a table.  "
+             "Correspondence: the independent decoder (tools/msidec.py) checks every saved file of the histories: whole rows, "
+             "references in range and to the expected text, catalog numbering, refcount = referring cells, unused entries empty, no "
+             "stale text.",
+        note="Trusted: Coq kernel, extraction, harness, tools/msidec.py.",
+        technique="Coq proof (exact-accounting invariant: occ over all table streams = refcount) + independent decoder on saved files",
+        design="4 C08"),
 }
 REASON_PENDING = "check not built yet in this round; see DESIGN.md section 4 for the plan"
 
